@@ -226,4 +226,814 @@ theorem smMapE_keys {g : String → Except Err (String × Val)} {keys : List Str
     simp only [Dict.keys, List.map_cons]
     rw [hk k b hb]; congr 1; exact ih hbs
 
+
+/-! ### first-occurrence dedup -/
+
+theorem mem_smDedupAux {α} [BEq α] [LawfulBEq α] {seen l : List α} {a : α} :
+    a ∈ smDedupAux seen l ↔ a ∈ l ∧ a ∉ seen := by
+  induction l generalizing seen with
+  | nil => simp [smDedupAux]
+  | cons x l ih =>
+    simp only [smDedupAux]
+    split
+    · rename_i hx
+      have hx' : x ∈ seen := by simpa using hx
+      rw [ih]
+      constructor
+      · rintro ⟨h1, h2⟩; exact ⟨List.mem_cons_of_mem _ h1, h2⟩
+      · rintro ⟨h1, h2⟩
+        rcases List.mem_cons.mp h1 with rfl | h1
+        · exact absurd hx' h2
+        · exact ⟨h1, h2⟩
+    · rename_i hx
+      have hx' : x ∉ seen := by simpa using hx
+      rw [List.mem_cons, ih]
+      constructor
+      · rintro (rfl | ⟨h1, h2⟩)
+        · exact ⟨by simp, hx'⟩
+        · exact ⟨List.mem_cons_of_mem _ h1, fun h => h2 (List.mem_cons_of_mem _ h)⟩
+      · rintro ⟨h1, h2⟩
+        by_cases hax : a = x
+        · exact Or.inl hax
+        · right
+          rcases List.mem_cons.mp h1 with rfl | h1
+          · exact absurd rfl hax
+          · exact ⟨h1, fun h => by rcases List.mem_cons.mp h with rfl | h; exact hax rfl; exact h2 h⟩
+
+theorem mem_smDedup {α} [BEq α] [LawfulBEq α] {l : List α} {a : α} : a ∈ smDedup l ↔ a ∈ l := by
+  simp [smDedup, mem_smDedupAux]
+
+theorem nodup_smDedupAux {α} [BEq α] [LawfulBEq α] (seen l : List α) : (smDedupAux seen l).Nodup := by
+  induction l generalizing seen with
+  | nil => simp [smDedupAux]
+  | cons x l ih =>
+    simp only [smDedupAux]
+    split
+    · exact ih seen
+    · refine List.nodup_cons.mpr ⟨?_, ih _⟩
+      rw [mem_smDedupAux]
+      simp
+
+theorem nodup_smDedup {α} [BEq α] [LawfulBEq α] (l : List α) : (smDedup l).Nodup :=
+  nodup_smDedupAux [] l
+
+/-! ### `summarize_cell_values` -/
+
+theorem mem_valueKeys {cells : List Cell} {k : String} :
+    k ∈ valueKeys cells ↔ ∃ c ∈ cells, k ∈ c.values.keys := by
+  simp [valueKeys, mem_smDedup, List.mem_flatMap]
+
+theorem getV_eq_none_of_not_mem_valueKeys {cells : List Cell} {k : String}
+    (h : k ∉ valueKeys cells) : ∀ c ∈ cells, c.getV k = .none := by
+  intro c hc
+  have : k ∉ c.values.keys := fun hk => h (mem_valueKeys.mpr ⟨c, hc, hk⟩)
+  simp [Cell.getV, Dict.get?_eq_none_of_not_mem_keys this]
+
+theorem rawGet_rawValues {cells : List Cell} {keys : List String} {k : String} (h : k ∈ keys) :
+    rawGet (rawValues cells keys) k = .ok (cells.map fun c => c.getV k) := by
+  unfold rawGet rawValues
+  rw [Dict.get?_map_mk, if_pos h]
+
+theorem rawGet_rawValues_not_mem {cells : List Cell} {keys : List String} {k : String} (h : k ∉ keys) :
+    rawGet (rawValues cells keys) k = .error .keyError := by
+  unfold rawGet rawValues
+  rw [Dict.get?_map_mk, if_neg h]
+
+theorem aggKey_fst {tr : Transc} {extra : List RuleEntry} {raw : Dict (List Val)} {k : String}
+    {r : String × Val} (h : aggKey tr extra raw k = .ok r) : r.1 = k := by
+  unfold aggKey at h
+  split at h
+  · cases h
+  · split at h
+    · cases h
+    · cases h; rfl
+
+/-- the entry a sum rule produces -/
+theorem aggKey_sum {tr : Transc} {extra : List RuleEntry} {cells : List Cell} {keys : List String}
+    {f : String} {v : Val} (hr : ruleOf extra (lowerKey f) = some ⟨.sum, [f]⟩) (hf : f ∈ keys)
+    (h : aggKey tr extra (rawValues cells keys) f = .ok (f, v)) :
+    conformingSum (cells.map fun c => c.getV f) = .ok v := by
+  unfold aggKey at h
+  rw [hr] at h
+  simp only [applyRule, rawGet_rawValues hf] at h
+  split at h
+  · cases h
+  · rename_i v' hv'
+    cases h
+    exact hv'
+
+theorem sum_map_zero {α} (l : List α) (g : α → Rat) (h : ∀ a ∈ l, g a = 0) : (l.map g).sum = 0 := by
+  induction l with
+  | nil => rfl
+  | cons a l ih =>
+    rw [List.map_cons, List.sum_cons, h a (by simp), ih (fun b hb => h b (by simp [hb]))]
+    exact Rat.add_zero 0
+
+/-- the first statement: an unknown field name is refused before anything is computed -/
+theorem summarizeCellValues_unknown {tr : Transc} {extra : List RuleEntry} {cells : List Cell}
+    {prem : Bool} (h : ∃ c ∈ cells, ∃ k ∈ c.values.keys, ruleOf extra (lowerKey k) = none) :
+    summarizeCellValues tr extra cells prem = .error .triangleError := by
+  obtain ⟨c, hc, k, hk, hr⟩ := h
+  unfold summarizeCellValues
+  have : (valueKeys cells).any (fun k => (ruleOf extra (lowerKey k)).isNone) = true := by
+    rw [List.any_eq_true]
+    exact ⟨k, mem_valueKeys.mpr ⟨c, hc, hk⟩, by simp [hr]⟩
+  simp [this]
+
+/-- **cell-level sum clause** (`summarize_premium = True`): a field whose rule is the sum of itself comes out
+as the sample-wise sum over all cells, cells without the field counting 0 -/
+theorem summarizeCellValues_sum_at {tr : Transc} {extra : List RuleEntry} {cells : List Cell}
+    {d : Dict Val} {f : String} {i : Nat}
+    (h : summarizeCellValues tr extra cells true = .ok d)
+    (hr : ruleOf extra (lowerKey f) = some ⟨.sum, [f]⟩)
+    (hin : ∀ c ∈ cells, (c.getV f).inRange i = true) :
+    ((d.get? f).getD .none).at i = (cells.map fun c => (c.getV f).at i).sum ∧
+    ((d.get? f).getD .none).inRange i = true := by
+  unfold summarizeCellValues at h
+  simp only at h
+  split at h
+  · cases h
+  · simp only [if_true] at h
+    have hg := smMapE_get? h (fun k r hk => aggKey_fst hk) f
+    by_cases hf : f ∈ valueKeys cells
+    · obtain ⟨v, hv, hd⟩ := hg.1 hf
+      rw [hd]
+      have hs := aggKey_sum hr hf hv
+      have := conformingSum_at (i := i) hs (by
+        intro w hw
+        obtain ⟨c, hc, rfl⟩ := List.mem_map.mp hw
+        exact hin c hc)
+      simpa [List.map_map, Function.comp_def] using this
+    · rw [hg.2 hf]
+      refine ⟨?_, rfl⟩
+      rw [sum_map_zero]
+      · rfl
+      · intro c hc
+        rw [getV_eq_none_of_not_mem_valueKeys hf c hc]; rfl
+
+
+open Generated.Summarize
+
+theorem Dict.get?_map_val {α β} (d : Dict α) (g : α → β) (k : String) :
+    Dict.get? (d.map fun p => (p.1, g p.2)) k = (Dict.get? d k).map g := by
+  induction d with
+  | nil => rfl
+  | cons p d ih =>
+    rw [List.map_cons, Dict.get?_cons, Dict.get?_cons, ih]
+    split <;> simp
+
+theorem distinct_foldl_head (l : List (Metadata × Nat)) (st : List Metadata × List Nat) (i : Nat)
+    (tl : List Nat) (h : st.2 = i :: tl) : ∃ tl', (l.foldl distinctStep st).2 = i :: tl' := by
+  induction l generalizing st tl with
+  | nil => exact ⟨tl, h⟩
+  | cons x l ih =>
+    rw [List.foldl_cons]
+    unfold distinctStep
+    split
+    · exact ih st tl h
+    · exact ih _ (tl ++ [x.2]) (by simp [h])
+
+/-- the first distinct index is always 0 -/
+theorem nonLossDistinctIndices_head (c : Cell) (rest : List Cell) :
+    ∃ tl, nonLossDistinctIndices (c :: rest) = 0 :: tl := by
+  unfold nonLossDistinctIndices
+  simp only [List.map_cons, List.zipIdx_cons, List.foldl_cons]
+  exact distinct_foldl_head _ _ 0 [] (by simp [distinctStep])
+
+theorem pickIdx_head {α} (tl : List Nat) (v : α) (vs : List α) :
+    ∃ r, pickIdx (0 :: tl) (v :: vs) = v :: r := by
+  unfold pickIdx
+  simp [List.zipIdx_cons]
+
+theorem firstNonLoss_fst {nl : Dict (List Val)} {k : String} {r : String × Val}
+    (h : firstNonLoss nl k = .ok r) : r.1 = k := by
+  unfold firstNonLoss at h
+  split at h
+  · cases h; rfl
+  · cases h
+  · cases h
+
+/-- **`summarize_premium = False`, loss fields**: still the sample-wise sum over ALL cells -/
+theorem summarizeCellValues_noprem_sum_at {tr : Transc} {extra : List RuleEntry} {cells : List Cell}
+    {d : Dict Val} {f : String} {i : Nat}
+    (h : summarizeCellValues tr extra cells false = .ok d)
+    (hnl : f ∉ nonLossMetrics)
+    (hr : ruleOf extra (lowerKey f) = some ⟨.sum, [f]⟩)
+    (hin : ∀ c ∈ cells, (c.getV f).inRange i = true) :
+    ((d.get? f).getD .none).at i = (cells.map fun c => (c.getV f).at i).sum ∧
+    ((d.get? f).getD .none).inRange i = true := by
+  unfold summarizeCellValues at h
+  simp only at h
+  split at h
+  · cases h
+  · simp only [Bool.false_eq_true, if_false] at h
+    split at h
+    · cases h
+    · rename_i loss hloss
+      split at h
+      · cases h
+      · rename_i nonLoss hnon
+        cases h
+        have hg := smMapE_get? hloss (fun k r hk => aggKey_fst hk) f
+        have hkn := smMapE_keys hnon (fun k r hk => firstNonLoss_fst hk)
+        have hnone : Dict.get? nonLoss f = none := by
+          apply Dict.get?_eq_none_of_not_mem_keys
+          rw [hkn, List.mem_filter]
+          simp [hnl]
+        by_cases hf : f ∈ valueKeys cells
+        · have hf' : f ∈ (valueKeys cells).filter (fun k => !nonLossMetrics.contains k) := by
+            rw [List.mem_filter]; exact ⟨hf, by simp [hnl]⟩
+          obtain ⟨v, hv, hd⟩ := hg.1 hf'
+          rw [Dict.get?_append, hd]
+          have hs := aggKey_sum hr hf hv
+          have := conformingSum_at (i := i) hs (by
+            intro w hw
+            obtain ⟨c, hc, rfl⟩ := List.mem_map.mp hw
+            exact hin c hc)
+          simpa [List.map_map, Function.comp_def] using this
+        · have hf' : f ∉ (valueKeys cells).filter (fun k => !nonLossMetrics.contains k) :=
+            fun hm => hf (List.mem_filter.mp hm).1
+          rw [Dict.get?_append, hg.2 hf', hnone]
+          refine ⟨?_, rfl⟩
+          rw [sum_map_zero]
+          · rfl
+          · intro c hc
+            rw [getV_eq_none_of_not_mem_valueKeys hf c hc]; rfl
+
+/-- **`summarize_premium = False`, premium/exposure fields**: the FIRST cell's entry (`None` if it lacks the
+field), not a sum -/
+theorem summarizeCellValues_noprem_first {tr : Transc} {extra : List RuleEntry} {c0 : Cell}
+    {rest : List Cell} {d : Dict Val} {f : String}
+    (h : summarizeCellValues tr extra (c0 :: rest) false = .ok d)
+    (hnl : f ∈ nonLossMetrics) (hf : f ∈ valueKeys (c0 :: rest)) :
+    d.get? f = some (c0.getV f) := by
+  unfold summarizeCellValues at h
+  simp only at h
+  split at h
+  · cases h
+  · simp only [Bool.false_eq_true, if_false] at h
+    split at h
+    · cases h
+    · rename_i loss hloss
+      split at h
+      · cases h
+      · rename_i nonLoss hnon
+        cases h
+        have hkl := smMapE_keys hloss (fun k r hk => aggKey_fst hk)
+        have hnone : Dict.get? loss f = none := by
+          apply Dict.get?_eq_none_of_not_mem_keys
+          rw [hkl, List.mem_filter]
+          simp [hnl]
+        have hf' : f ∈ (valueKeys (c0 :: rest)).filter (fun k => nonLossMetrics.contains k) := by
+          rw [List.mem_filter]; exact ⟨hf, by simpa using hnl⟩
+        obtain ⟨v, hv, hd⟩ := (smMapE_get? hnon (fun k r hk => firstNonLoss_fst hk) f).1 hf'
+        rw [Dict.get?_append, hnone, hd]
+        -- what `firstNonLoss` read
+        obtain ⟨tl, htl⟩ := nonLossDistinctIndices_head c0 rest
+        unfold firstNonLoss at hv
+        rw [Dict.get?_map_val, rawValues, Dict.get?_map_mk, if_pos hf, htl] at hv
+        simp only [Option.map_some, List.map_cons] at hv
+        obtain ⟨r, hr⟩ := pickIdx_head tl (c0.getV f) (rest.map fun c => c.getV f)
+        rw [hr] at hv
+        cases hv
+        rfl
+
+
+
+/-! ### `toolz.groupby` in closed form -/
+
+theorem smDedupAux_append_singleton {α} [BEq α] [LawfulBEq α] (seen l : List α) (x : α) :
+    smDedupAux seen (l ++ [x]) =
+      if x ∈ seen ∨ x ∈ l then smDedupAux seen l else smDedupAux seen l ++ [x] := by
+  induction l generalizing seen with
+  | nil =>
+    simp only [List.nil_append, smDedupAux, List.not_mem_nil, or_false, List.contains_eq_mem,
+      decide_eq_true_eq]
+  | cons a l ih =>
+    simp only [List.cons_append, smDedupAux]
+    split
+    · rename_i ha
+      rw [ih]
+      have ha' : a ∈ seen := by simpa using ha
+      by_cases hx : x ∈ seen
+      · simp [hx]
+      · have : x ≠ a := fun e => hx (e ▸ ha')
+        simp [hx, this]
+    · rename_i ha
+      rw [ih]
+      by_cases hxa : x = a
+      · subst hxa; simp
+      · simp [hxa, List.cons_append]
+        split <;> simp_all
+
+theorem smDedup_append_singleton {α} [BEq α] [LawfulBEq α] (l : List α) (x : α) :
+    smDedup (l ++ [x]) = if x ∈ l then smDedup l else smDedup l ++ [x] := by
+  simp [smDedup, smDedupAux_append_singleton]
+
+/-- the closed form: distinct keys in first-occurrence order, each with the sub-list of its elements -/
+def groupsOf {α κ} [BEq κ] (key : α → κ) (l : List α) : List (κ × List α) :=
+  (smDedup (l.map key)).map fun k => (k, l.filter fun a => key a == k)
+
+theorem groupBy_step {α κ} [BEq κ] [LawfulBEq κ] (key : α → κ) (pre : List α) (a : α) :
+    (let k := key a
+     if (groupsOf key pre).any (·.1 == k) then
+       (groupsOf key pre).map (fun p => if p.1 == k then (p.1, p.2 ++ [a]) else p)
+     else groupsOf key pre ++ [(k, [a])]) = groupsOf key (pre ++ [a]) := by
+  simp only
+  have hany : (groupsOf key pre).any (·.1 == key a) = true ↔ key a ∈ pre.map key := by
+    simp [groupsOf, List.any_map, List.any_eq_true, mem_smDedup]
+  by_cases hk : key a ∈ pre.map key
+  · rw [if_pos (hany.mpr hk)]
+    unfold groupsOf
+    rw [List.map_append, List.map_singleton, smDedup_append_singleton, if_pos hk, List.map_map]
+    apply List.map_congr_left
+    intro k _
+    simp only [Function.comp, List.filter_append, List.filter_cons, List.filter_nil]
+    by_cases hkk : k = key a
+    · subst hkk; simp
+    · have h1 : (k == key a) = false := by simpa using hkk
+      have h2 : (key a == k) = false := by simpa using fun e => hkk e.symm
+      simp [h1, h2]
+  · have hany' : ¬ (groupsOf key pre).any (·.1 == key a) = true := fun h => hk (hany.mp h)
+    rw [if_neg hany']
+    unfold groupsOf
+    rw [List.map_append, List.map_singleton, smDedup_append_singleton, if_neg hk, List.map_append,
+      List.map_singleton]
+    congr 1
+    · apply List.map_congr_left
+      intro k hkm
+      have hkm' : k ∈ pre.map key := mem_smDedup.mp hkm
+      have hne : ¬ key a = k := fun e => hk (e ▸ hkm')
+      have : (key a == k) = false := by simpa using hne
+      simp [List.filter_append, List.filter_cons, List.filter_nil, this]
+    · have : pre.filter (fun x => key x == key a) = [] := by
+        rw [List.filter_eq_nil_iff]
+        intro x hx hxe
+        exact hk (List.mem_map.mpr ⟨x, hx, by simpa using hxe⟩)
+      simp [List.filter_append, this]
+
+theorem groupBy_foldl {α κ} [BEq κ] [LawfulBEq κ] (key : α → κ) (pre l : List α) :
+    l.foldl (fun acc a =>
+        let k := key a
+        if acc.any (·.1 == k) then acc.map (fun p => if p.1 == k then (p.1, p.2 ++ [a]) else p)
+        else acc ++ [(k, [a])]) (groupsOf key pre) = groupsOf key (pre ++ l) := by
+  induction l generalizing pre with
+  | nil => simp
+  | cons a l ih =>
+    rw [List.foldl_cons]
+    have := groupBy_step key pre a
+    simp only at this
+    rw [this, ih, List.append_assoc, List.singleton_append]
+
+/-- **`toolz.groupby` = distinct keys in first-occurrence order, each with its elements in order** -/
+theorem groupBy_eq_groupsOf {α κ} [BEq κ] [LawfulBEq κ] (key : α → κ) (l : List α) :
+    groupBy key l = groupsOf key l := by
+  have := groupBy_foldl key [] l
+  simpa [groupBy, groupsOf, smDedup, smDedupAux] using this
+
+/-! ### sums over a partition -/
+
+theorem sum_perm {l₁ l₂ : List Rat} (h : l₁.Perm l₂) : l₁.sum = l₂.sum := by
+  induction h with
+  | nil => rfl
+  | cons x _ ih => simp [List.sum_cons, ih]
+  | swap x y l => simp only [List.sum_cons]; grind
+  | trans _ _ ih₁ ih₂ => exact ih₁.trans ih₂
+
+theorem sum_indicator {κ} [BEq κ] [LawfulBEq κ] (ks : List κ) (k0 : κ) (x : Rat) (hn : ks.Nodup)
+    (hm : k0 ∈ ks) : (ks.map fun k => if k0 == k then x else 0).sum = x := by
+  induction ks with
+  | nil => simp at hm
+  | cons k ks ih =>
+    rw [List.map_cons, List.sum_cons]
+    have hn' := List.nodup_cons.mp hn
+    by_cases hk : k0 = k
+    · subst hk
+      have : (ks.map fun k => if k0 == k then x else 0).sum = 0 := by
+        apply sum_map_zero
+        intro a ha
+        have : ¬ k0 = a := fun e => hn'.1 (e ▸ ha)
+        simp [this]
+      rw [this]; simp [Rat.add_zero]
+    · have hm' : k0 ∈ ks := by
+        rcases List.mem_cons.mp hm with h | h
+        · exact absurd h hk
+        · exact h
+      rw [ih hn'.2 hm']
+      simp [hk, Rat.zero_add]
+
+theorem sum_map_add {α} (l : List α) (g h : α → Rat) :
+    (l.map fun a => g a + h a).sum = (l.map g).sum + (l.map h).sum := by
+  induction l with
+  | nil => simp only [List.map_nil, List.sum_nil]; grind
+  | cons a l ih => simp only [List.map_cons, List.sum_cons, ih]; grind
+
+/-- summing group by group is summing the whole list -/
+theorem sum_groups {α κ} [BEq κ] [LawfulBEq κ] (key : α → κ) (g : α → Rat) (ks : List κ) (l : List α)
+    (hn : ks.Nodup) (hm : ∀ a ∈ l, key a ∈ ks) :
+    (ks.map fun k => ((l.filter fun a => key a == k).map g).sum).sum = (l.map g).sum := by
+  induction l with
+  | nil => simp only [List.filter_nil, List.map_nil, List.sum_nil]; exact sum_map_zero _ _ (fun _ _ => rfl)
+  | cons a l ih =>
+    have ih' := ih (fun b hb => hm b (by simp [hb]))
+    have : (ks.map fun k => (((a :: l).filter fun a => key a == k).map g).sum)
+        = ks.map fun k => (if key a == k then g a else 0) + ((l.filter fun a => key a == k).map g).sum := by
+      apply List.map_congr_left
+      intro k _
+      rw [List.filter_cons]
+      split <;> simp [List.sum_cons, Rat.zero_add]
+    rw [this, sum_map_add, ih', sum_indicator ks (key a) (g a) hn (hm a (by simp)), List.map_cons,
+      List.sum_cons]
+
+
+open Generated.Summarize in
+/-- both branches of `summarize_premium` at once -/
+theorem summarizeCellValues_sum_at' {tr : Transc} {extra : List RuleEntry} {cells : List Cell}
+    {pf : Bool} {d : Dict Val} {f : String} {i : Nat}
+    (h : summarizeCellValues tr extra cells pf = .ok d)
+    (hc : pf = true ∨ f ∉ nonLossMetrics)
+    (hr : ruleOf extra (lowerKey f) = some ⟨.sum, [f]⟩)
+    (hin : ∀ c ∈ cells, (c.getV f).inRange i = true) :
+    ((d.get? f).getD .none).at i = (cells.map fun c => (c.getV f).at i).sum ∧
+    ((d.get? f).getD .none).inRange i = true := by
+  cases pf with
+  | true => exact summarizeCellValues_sum_at h hr hin
+  | false =>
+    rcases hc with hc | hc
+    · cases hc
+    · exact summarizeCellValues_noprem_sum_at h hc hr hin
+
+theorem Cell.mk?_ok {c o : Cell} (h : Cell.mk? c = .ok o) : o = c := by
+  unfold Cell.mk? at h
+  split at h
+  · cases h; rfl
+  · cases h
+
+theorem summaryCell_ok {tr : Transc} {extra : List RuleEntry} {incr prem : Bool} {md : Metadata}
+    {g : CoordKey × List Cell} {o : Cell} (h : summaryCell tr extra incr prem md g = .ok o) :
+    ∃ vals, summarizeCellValues tr extra g.2 (if incr then true else prem) = .ok vals ∧
+      o = { kind := if incr then .incremental else .cumulative, ps := g.1.1, pe := g.1.2.1,
+            ev := g.1.2.2.1, prev := g.1.2.2.2, values := vals, md := md } := by
+  unfold summaryCell at h
+  split at h
+  · cases h
+  · rename_i vals hv
+    exact ⟨vals, hv, Cell.mk?_ok h⟩
+
+theorem ofCells_ok_perm {l t : List Cell} (h : Triangle.ofCells l = .ok t) : t.Perm l := by
+  unfold Triangle.ofCells at h
+  split at h
+  · cases h; exact List.mergeSort_perm l _
+  · cases h
+
+/-- the three stages of `summarize` -/
+theorem summarize_decompose {tr : Transc} {extra : List RuleEntry} {t out : List Cell} {prem : Bool}
+    (h : summarize tr extra t prem = .ok out) :
+    ∃ md cells, metadataGcd t = .ok md ∧
+      smMapE (summaryCell tr extra (smIsIncremental t) prem md)
+        (groupsOf (coordKey (smIsIncremental t)) t) = .ok cells ∧ out.Perm cells := by
+  unfold summarize at h
+  split at h
+  · cases h
+  · rename_i md hmd
+    simp only at h
+    split at h
+    · cases h
+    · rename_i cells hcells
+      rw [groupBy_eq_groupsOf] at hcells
+      exact ⟨md, cells, hmd, hcells, ofCells_ok_perm h⟩
+
+theorem smMapE_sum {α β} {F : α → Except Err β} {gs : List α} {cells : List β} (P : β → Rat)
+    (Q : α → Rat) (h : smMapE F gs = .ok cells) (hpq : ∀ g ∈ gs, ∀ o, F g = .ok o → P o = Q g) :
+    (cells.map P).sum = (gs.map Q).sum := by
+  induction gs generalizing cells with
+  | nil => simp only [smMapE] at h; cases h; rfl
+  | cons g gs ih =>
+    obtain ⟨b, bs, hb, hbs, rfl⟩ := smMapE_cons_ok h
+    simp only [List.map_cons, List.sum_cons]
+    rw [hpq g (by simp) b hb, ih hbs (fun g' hg' => hpq g' (by simp [hg']))]
+
+theorem smMapE_map {α β γ} {F : α → Except Err β} {gs : List α} {cells : List β} (P : β → γ)
+    (Q : α → γ) (h : smMapE F gs = .ok cells) (hpq : ∀ g ∈ gs, ∀ o, F g = .ok o → P o = Q g) :
+    cells.map P = gs.map Q := by
+  induction gs generalizing cells with
+  | nil => simp only [smMapE] at h; cases h; rfl
+  | cons g gs ih =>
+    obtain ⟨b, bs, hb, hbs, rfl⟩ := smMapE_cons_ok h
+    simp only [List.map_cons]
+    rw [hpq g (by simp) b hb, ih hbs (fun g' hg' => hpq g' (by simp [hg']))]
+
+theorem coordKey_false_prev (c : Cell) : (coordKey false c).2.2.2 = none := rfl
+
+/-- the coordinate of a summary cell is the key of its group -/
+theorem summaryCell_coordKey {tr : Transc} {extra : List RuleEntry} {prem : Bool} {md : Metadata}
+    {t : List Cell} {g : CoordKey × List Cell} {o : Cell}
+    (hg : g ∈ groupsOf (coordKey (smIsIncremental t)) t)
+    (h : summaryCell tr extra (smIsIncremental t) prem md g = .ok o) :
+    coordKey (smIsIncremental t) o = g.1 := by
+  obtain ⟨vals, _, rfl⟩ := summaryCell_ok h
+  unfold groupsOf at hg
+  obtain ⟨k, hk, rfl⟩ := List.mem_map.mp hg
+  obtain ⟨c, _, rfl⟩ := List.mem_map.mp (mem_smDedup.mp hk)
+  cases hi : smIsIncremental t <;> simp [coordKey]
+
+
+/-! ### metadata gcd -/
+
+theorem allSame_map_iff {α β} [BEq β] [LawfulBEq β] (c0 : α) (rest : List α) (f : α → β) :
+    allSame ((c0 :: rest).map f) = true ↔ ∀ c ∈ c0 :: rest, f c = f c0 := by
+  simp [allSame, List.all_eq_true]
+
+theorem allSame_nil {β} [BEq β] : allSame ([] : List β) = false := rfl
+
+/-- `len({…}) == 1` fails as soon as two members differ -/
+theorem allSame_false_of_ne {α β} [BEq β] [LawfulBEq β] {t : List α} {f : α → β} {a b : α}
+    (ha : a ∈ t) (hb : b ∈ t) (hne : f a ≠ f b) : allSame (t.map f) = false := by
+  cases t with
+  | nil => simp at ha
+  | cons c0 rest =>
+    cases h : allSame ((c0 :: rest).map f) with
+    | false => rfl
+    | true =>
+      have := (allSame_map_iff c0 rest f).mp h
+      exact absurd ((this a ha).trans (this b hb).symm) hne
+
+theorem attrGcd_eq_some_iff {α} [BEq α] [LawfulBEq α] (c0 : Cell) (rest : List Cell)
+    (f : Metadata → Option α) (x : α) :
+    attrGcd (c0 :: rest) f = some x ↔ ∀ c ∈ c0 :: rest, f c.md = some x := by
+  unfold attrGcd
+  simp only
+  split
+  · rename_i hall
+    have hall' : ∀ c ∈ c0 :: rest, f c.md = f c0.md := by
+      simpa [List.all_eq_true] using hall
+    constructor
+    · intro h c hc; rw [hall' c hc, h]
+    · intro h; exact h c0 (by simp)
+  · rename_i hall
+    constructor
+    · intro h; cases h
+    · intro h
+      exfalso; apply hall
+      rw [List.all_eq_true]
+      intro c hc
+      simp [h c hc, h c0 (by simp)]
+
+theorem Dict.get?_filter {α} (d : Dict α) (p : String × α → Bool) (k : String) (v : α)
+    (hn : d.keys.Nodup) :
+    Dict.get? (d.filter p) k = some v ↔ Dict.get? d k = some v ∧ p (k, v) = true := by
+  induction d with
+  | nil => simp [Dict.get?_nil]
+  | cons q d ih =>
+    simp only [Dict.keys, List.map_cons, List.nodup_cons] at hn
+    have ih' := ih hn.2
+    by_cases hp : p q = true
+    · rw [List.filter_cons, if_pos hp, Dict.get?_cons, Dict.get?_cons]
+      by_cases hq : q.1 = k
+      · rw [if_pos hq, if_pos hq]
+        constructor
+        · intro h; cases h; refine ⟨rfl, ?_⟩; rw [← hq]; exact hp
+        · intro h; exact h.1
+      · rw [if_neg hq, if_neg hq]; exact ih'
+    · rw [List.filter_cons, if_neg hp, Dict.get?_cons]
+      by_cases hq : q.1 = k
+      · have hnone' : Dict.get? (d.filter p) k = none := by
+          apply Dict.get?_eq_none_of_not_mem_keys
+          intro hm
+          apply hn.1
+          rw [hq]
+          obtain ⟨x, hx, hxk⟩ := List.mem_map.mp hm
+          exact List.mem_map.mpr ⟨x, (List.mem_filter.mp hx).1, hxk⟩
+        rw [if_pos hq, hnone']
+        constructor
+        · intro h; cases h
+        · rintro ⟨h1, h2⟩
+          cases h1
+          rw [← hq] at h2
+          exact absurd h2 hp
+      · rw [if_neg hq]; exact ih'
+
+theorem detailsGcd_get? (d0 : Dict MVal) (rest : List (Dict MVal)) (k : String) (v : MVal)
+    (hn : d0.keys.Nodup) :
+    Dict.get? (detailsGcd (d0 :: rest)) k = some v ↔
+      v ≠ .none ∧ ∀ d ∈ d0 :: rest, Dict.get? d k = some v := by
+  unfold detailsGcd
+  rw [Dict.get?_filter _ _ _ _ hn]
+  simp only [Bool.and_eq_true, List.all_eq_true, beq_iff_eq, bne_iff_ne, ne_eq, List.mem_cons,
+    forall_eq_or_imp]
+  constructor
+  · rintro ⟨h0, hr, hv⟩; exact ⟨hv, h0, hr⟩
+  · rintro ⟨hv, h0, hr⟩; exact ⟨h0, hr, hv⟩
+
+
+/-! ### weighted averages -/
+
+theorem nMul_at {a b r : Val} {i : Nat} (h : Val.nMul a b = .ok r)
+    (ha : a.inRange i = true) (hb : b.inRange i = true) :
+    r.at i = a.at i * b.at i ∧ r.inRange i = true := by
+  cases a <;> cases b <;> simp only [Val.nMul] at h
+  case arr.arr i1 s1 d1 i2 s2 d2 =>
+    split at h
+    · cases h
+      simp only [Val.inRange, decide_eq_true_eq] at ha hb
+      simp only [Val.at, Val.inRange, getD_zipWith' _ _ _ _ ha hb, List.length_zipWith,
+        decide_eq_true_eq]
+      exact ⟨trivial, by omega⟩
+    · cases h
+  all_goals first
+    | (cases h; done)
+    | (cases h
+       simp only [Val.inRange, decide_eq_true_eq] at ha hb
+       simp [Val.at, Val.inRange, ha, hb, Rat.intCast_mul, Rat.mul_comm])
+
+theorem getD_ne_zero {d : List Rat} {i : Nat} (hz : ¬ (d.any fun x => x == 0) = true) (hi : i < d.length) :
+    d.getD i 0 ≠ 0 := by
+  intro h0
+  apply hz
+  rw [List.any_eq_true]
+  refine ⟨d[i], List.getElem_mem hi, ?_⟩
+  rw [List.getD_eq_getElem?_getD, List.getElem?_eq_getElem hi] at h0
+  simpa using h0
+
+theorem getD_map'' (d : List Rat) (f : Rat → Rat) (i : Nat) (h : i < d.length) :
+    (d.map f).getD i 0 = f (d.getD i 0) := by
+  simp [List.getD_eq_getElem?_getD, h]
+
+theorem nDiv_at {a b r : Val} {i : Nat} (h : Val.nDiv a b = .ok r)
+    (ha : a.inRange i = true) (hb : b.inRange i = true) :
+    r.at i = a.at i / b.at i ∧ b.at i ≠ 0 := by
+  cases a <;> cases b <;> simp only [Val.nDiv] at h
+  all_goals first
+    | (cases h; done)
+    | (split at h
+       · cases h
+       · rename_i hz
+         cases h
+         simp only [Val.inRange, decide_eq_true_eq] at ha hb
+         simp_all [Val.at, Val.inRange])
+    | skip
+  case int.arr x b s d =>
+    split at h
+    · cases h
+    · rename_i hz
+      cases h
+      simp only [Val.inRange, decide_eq_true_eq] at hb
+      exact ⟨by simp only [Val.at]; rw [getD_map'' _ _ _ hb], getD_ne_zero hz hb⟩
+  case flt.arr x b s d =>
+    split at h
+    · cases h
+    · rename_i hz
+      cases h
+      simp only [Val.inRange, decide_eq_true_eq] at hb
+      exact ⟨by simp only [Val.at]; rw [getD_map'' _ _ _ hb], getD_ne_zero hz hb⟩
+  case arr.arr b1 s1 d1 b2 s2 d2 =>
+    split at h
+    · split at h
+      · cases h
+      · rename_i hz
+        cases h
+        simp only [Val.inRange, decide_eq_true_eq] at ha hb
+        exact ⟨by simp only [Val.at]; rw [getD_zipWith' _ _ _ _ ha hb], getD_ne_zero hz hb⟩
+    · cases h
+
+
+theorem wavgStep_at {t r : Val} {vw : Val × Val} {i : Nat} (h : wavgStep t vw = .ok r)
+    (ht : t.inRange i = true) (hv : vw.1.inRange i = true) (hw : vw.2.inRange i = true) :
+    r.at i = t.at i + vw.1.at i * vw.2.at i ∧ r.inRange i = true := by
+  unfold wavgStep at h
+  split at h
+  · rename_i hn
+    cases h
+    rw [at_of_isNone hn]
+    exact ⟨by simp [Rat.zero_mul, Rat.add_zero], ht⟩
+  · split at h
+    · cases h
+    · split at h
+      · cases h
+      · rename_i p hp
+        have h1 := nMul_at hp hv hw
+        have h2 := iAdd_at h ht h1.2
+        exact ⟨by rw [h2.1, h1.1], h2.2⟩
+
+theorem foldE_wavgStep_at {vws : List (Val × Val)} {t r : Val} {i : Nat}
+    (h : smFoldE wavgStep t vws = .ok r) (ht : t.inRange i = true)
+    (hv : ∀ p ∈ vws, p.1.inRange i = true ∧ p.2.inRange i = true) :
+    r.at i = t.at i + (vws.map fun p => p.1.at i * p.2.at i).sum ∧ r.inRange i = true := by
+  induction vws generalizing t with
+  | nil => simp only [smFoldE] at h; cases h; simp [ht, Rat.add_zero]
+  | cons p rest ih =>
+    simp only [smFoldE] at h
+    split at h
+    · cases h
+    · rename_i t' ht'
+      have h1 := wavgStep_at ht' ht (hv p (by simp)).1 (hv p (by simp)).2
+      have h2 := ih h h1.2 (fun w hw => hv w (by simp [hw]))
+      refine ⟨?_, h2.2⟩
+      rw [h2.1, h1.1, List.map_cons, List.sum_cons, Rat.add_assoc]
+
+theorem foldE_nAdd_at {ws : List Val} {t r : Val} {i : Nat}
+    (h : smFoldE Val.nAdd t ws = .ok r) (ht : t.inRange i = true)
+    (hv : ∀ w ∈ ws, w.inRange i = true) :
+    r.at i = t.at i + (ws.map (·.at i)).sum ∧ r.inRange i = true := by
+  induction ws generalizing t with
+  | nil => simp only [smFoldE] at h; cases h; simp [ht, Rat.add_zero]
+  | cons w rest ih =>
+    simp only [smFoldE] at h
+    split at h
+    · cases h
+    · rename_i t' ht'
+      have h1 := nAdd_at ht' ht (hv w (by simp))
+      have h2 := ih h h1.2 (fun w' hw' => hv w' (by simp [hw']))
+      refine ⟨?_, h2.2⟩
+      rw [h2.1, h1.1, List.map_cons, List.sum_cons, Rat.add_assoc]
+
+theorem sum_filter_none (ws : List Val) (i : Nat) :
+    ((ws.filter fun w => !w.isNone).map (·.at i)).sum = (ws.map (·.at i)).sum := by
+  induction ws with
+  | nil => rfl
+  | cons w ws ih =>
+    rw [List.filter_cons]
+    cases hn : w.isNone with
+    | true => simp [ih, at_of_isNone hn, Rat.zero_add]
+    | false => simp [ih]
+
+theorem sumWeights_at {ws : List Val} {r : Val} {i : Nat} (h : sumWeights ws = .ok r)
+    (hv : ∀ w ∈ ws, w.inRange i = true) :
+    r.at i = (ws.map (·.at i)).sum ∧ r.inRange i = true := by
+  unfold sumWeights at h
+  have := foldE_nAdd_at (i := i) h (by simp [Val.inRange])
+    (fun w hw => hv w (List.mem_filter.mp hw).1)
+  refine ⟨?_, this.2⟩
+  rw [this.1, sum_filter_none]
+  simp [Val.at, Rat.zero_add]
+
+/-- **`_conforming_weighted_average` is the weighted average**: result × Σ weights = Σ value × weight, sample by
+sample, where the weights in the denominator are those of ALL cells (a missing value counts 0 in the numerator
+only), and the denominator is not zero -/
+theorem conformingWavg_at {vs ws : List Val} {r : Val} {i : Nat} (h : conformingWavg vs ws = .ok r)
+    (hv : ∀ v ∈ vs, v.inRange i = true) (hw : ∀ w ∈ ws, w.inRange i = true) :
+    r.at i * (ws.map (·.at i)).sum = ((vs.zip ws).map fun p => p.1.at i * p.2.at i).sum ∧
+    (ws.map (·.at i)).sum ≠ 0 := by
+  unfold conformingWavg at h
+  split at h
+  · cases h
+  · rename_i total htot
+    split at h
+    · cases h
+    · rename_i sw hsw
+      have h1 := foldE_wavgStep_at (i := i) htot (by simp [Val.inRange])
+        (fun p hp => ⟨hv p.1 (List.of_mem_zip hp).1, hw p.2 (List.of_mem_zip hp).2⟩)
+      have h2 := sumWeights_at (i := i) hsw hw
+      have h3 := nDiv_at h h1.2 h2.2
+      rw [h2.1] at h3
+      refine ⟨?_, h3.2⟩
+      rw [h3.1, h1.1, Rat.div_mul_cancel h3.2]
+      simp [Val.at, Rat.zero_add]
+
+
+/-- the entry a weighted-average rule produces -/
+theorem aggKey_wavg {tr : Transc} {extra : List RuleEntry} {cells : List Cell} {keys : List String}
+    {f w : String} {v : Val} (hr : ruleOf extra (lowerKey f) = some ⟨.wavg, [f, w]⟩) (hf : f ∈ keys)
+    (h : aggKey tr extra (rawValues cells keys) f = .ok (f, v)) :
+    w ∈ keys ∧ conformingWavg (cells.map fun c => c.getV f) (cells.map fun c => c.getV w) = .ok v := by
+  unfold aggKey at h
+  rw [hr] at h
+  simp only [applyRule, rawGet_rawValues hf] at h
+  by_cases hw : w ∈ keys
+  · simp only [rawGet_rawValues hw] at h
+    split at h
+    · cases h
+    · rename_i v' hv'
+      cases h
+      exact ⟨hw, hv'⟩
+  · simp only [rawGet_rawValues_not_mem hw] at h
+    cases h
+
+/-- **cell-level ratio clause**: a field whose rule is the `w`-weighted average of itself satisfies
+`result × Σ w = Σ value × w` sample by sample (Σ w over ALL cells of the group; cells without the field count 0 in
+the numerator), with a non-zero denominator -/
+theorem summarizeCellValues_wavg_at {tr : Transc} {extra : List RuleEntry} {cells : List Cell}
+    {d : Dict Val} {f w : String} {i : Nat}
+    (h : summarizeCellValues tr extra cells true = .ok d)
+    (hr : ruleOf extra (lowerKey f) = some ⟨.wavg, [f, w]⟩) (hf : f ∈ valueKeys cells)
+    (hin : ∀ c ∈ cells, (c.getV f).inRange i = true ∧ (c.getV w).inRange i = true) :
+    ∃ v, Dict.get? d f = some v ∧
+      v.at i * (cells.map fun c => (c.getV w).at i).sum =
+        (cells.map fun c => (c.getV f).at i * (c.getV w).at i).sum ∧
+      (cells.map fun c => (c.getV w).at i).sum ≠ 0 := by
+  unfold summarizeCellValues at h
+  simp only at h
+  split at h
+  · cases h
+  · simp only [if_true] at h
+    obtain ⟨v, hv, hd⟩ := (smMapE_get? h (fun k r hk => aggKey_fst hk) f).1 hf
+    obtain ⟨_, hs⟩ := aggKey_wavg hr hf hv
+    have := conformingWavg_at (i := i) hs
+      (by intro x hx; obtain ⟨c, hc, rfl⟩ := List.mem_map.mp hx; exact (hin c hc).1)
+      (by intro x hx; obtain ⟨c, hc, rfl⟩ := List.mem_map.mp hx; exact (hin c hc).2)
+    refine ⟨v, hd, ?_, ?_⟩
+    · simpa [List.zip_map', List.map_map, Function.comp_def] using this.1
+    · simpa [List.map_map, Function.comp_def] using this.2
+
+
 end Bermuda
